@@ -34,7 +34,7 @@ def run(rep):
         quick = rep.tier == "quick"
         # plus SELECT / set-operation statements of the verification grammar (FROM-first, WITH forms, every clause subset ...)
         ng = 2500 if quick else 40000
-        rcg, outg = verif.sh(["python3", os.path.join(verif.ROOT, "checks", "gen_sql_grammar.py"), str(rep.seed), str(ng), "--kinds", "select,setop"], timeout=1200)
+        rcg, outg = verif.sh(["python3", os.path.join(verif.ROOT, "checks", "gen_sql_grammar.py"), str(rep.seed), str(ng), "--kinds", "select,setop", "--gaps"], timeout=1200)
         if rcg != 0:
             broken.append({"obligation": "harness:gen_sql_grammar", "detail": outg[-400:]})
         # plus long queries (a select list of several KB, so that a token crosses the lexer's buffer boundary at a position
